@@ -28,6 +28,7 @@ type c02Msg struct {
 }
 
 type c02Conn struct {
+	Coalesce bool `json:"adjacent_writes_coalesced,omitempty"`
 	Msgs   []c02Msg `json:"msgs"`
 	Cuts   int      `json:"max_cuts"`
 	Faults bool     `json:"net_faults"`
@@ -140,6 +141,20 @@ func scenC02(e *Env) func() {
 					body = body[n:]
 				}
 			}
+		}
+		if c.Coalesce = e.Chance(35); c.Coalesce {
+			// the transport delivers some adjacent writes as one segment: the end of one
+			// message and the beginning of the next arrive together
+			var m []Seg
+			for _, sg := range segs {
+				if k := len(m) - 1; k >= 0 && m[k].Pause == 0 && e.Bool() {
+					m[k].Data = append(append([]byte(nil), m[k].Data...), sg.Data...)
+					m[k].Pause = sg.Pause
+					continue
+				}
+				m = append(m, sg)
+			}
+			segs = m
 		}
 		p.Conns = append(p.Conns, c)
 		builds = append(builds, built{segs, total + 90*time.Second})
